@@ -82,7 +82,8 @@ def gen_consts(rng, n):
         elif k < .78:
             out.append(["addr", rng.choice(ADDRS)])
         elif k < .84:
-            out.append(["method", rng.choice(["f()void", "g(uint64)uint64", "a b"])])
+            # (the assembler hashes the text between the quotes verbatim: backslashes, tabs and non-ASCII text are not escapes there)
+            out.append(["method", rng.choice(["f()void", "g(uint64)uint64", "a b", "do\\tit(uint64)void", "a\\x41()void", "b\\\\c()void", "t\tab()void", "\u00e9()void", "n\\n()void"])])
         elif k < .88:
             out.append(["tmpl_int", rng.choice(["TMPL_A", "TMPL_B"])])
         elif k < .92:
